@@ -2,6 +2,11 @@
 //! entry points `Channel::sign_counterparty_commitment_tx_phase2` (semantic) and
 //! `Channel::sign_counterparty_commitment_tx` (raw transaction + witness scripts).
 //!
+//!   committx bounds --out bounds.json
+//!        the contest-delay bounds of the real default policy, and PROBES: real setup_channel calls
+//!        with each of the two contest delays at min-1 / min / max / max+1 for every commitment type
+//!        (TLC - MC_CommitTx - resolves the matrix' delay names min / mid / max against this file and
+//!        checks that exactly the delays inside the bounds were accepted)
 //!   committx run --cases cases.ndjson --out log.ndjson [--threads 8]
 //!
 //! Every line of `cases.ndjson` is one BASE chosen by TLC (spec/MC_CommitTx.tla): a channel setup S, a
@@ -976,12 +981,44 @@ fn run() {
     println!("{}", json!({"bases": nbase, "raw": nraw, "ok": ok, "refused": refused, "panics": panics, "skipped": skipped}));
 }
 
+/// does the real setup_channel accept a channel with these contest delays?
+fn probe_setup(ct: &str, hdelay: u64, cdelay: u64) -> Value {
+    let sv = json!({"ct": ct, "outbound": true, "hdelay": hdelay, "cdelay": cdelay, "ks": 1, "fo": {"t": 1, "i": 0},
+                    "value": 1_000_000u64, "push": 100_000u64});
+    let c = json!({"n": 0, "pt": "A"});
+    match World::new(&sv, &c) {
+        Ok(_) => json!({"ct": ct, "hdelay": hdelay, "cdelay": cdelay, "ok": true, "msg": ""}),
+        Err(e) => json!({"ct": ct, "hdelay": hdelay, "cdelay": cdelay, "ok": false, "msg": e}),
+    }
+}
+
+fn bounds() {
+    let out = arg("out").expect("--out");
+    // the policy the fixture's node runs under (NodeFx::new(Regtest, None): the default simple policy)
+    let pol = default_policy(Network::Regtest);
+    let (min, max) = (pol.min_delay as u64, pol.max_delay as u64);
+    let mid = 144u64;
+    let mut probes = vec![];
+    for ct in ["static", "zerofee"] {
+        for d in [min.saturating_sub(1), min, mid, max, max + 1] {
+            probes.push(probe_setup(ct, d, mid));
+            probes.push(probe_setup(ct, mid, d));
+        }
+        probes.push(probe_setup(ct, min, min));
+        probes.push(probe_setup(ct, max, max));
+    }
+    let doc = json!({"min": min, "mid": mid, "max": max, "probes": probes});
+    std::fs::write(&out, serde_json::to_string(&doc).unwrap()).expect("write bounds");
+    println!("{}", json!({"min": min, "max": max, "probes": doc["probes"].as_array().unwrap().len()}));
+}
+
 fn main() {
     quiet_panics();
     match std::env::args().nth(1).as_deref() {
         Some("run") => run(),
+        Some("bounds") => bounds(),
         _ => {
-            eprintln!("usage: committx run --cases F --out F [--threads N]");
+            eprintln!("usage: committx run --cases F --out F [--threads N] | committx bounds --out F");
             std::process::exit(2);
         }
     }
